@@ -39,7 +39,10 @@ structure Facts where
   hashesRule          : Bool          -- RuntimeHash contains RuleHash(runtime = true, …)
   hashesConfig        : Bool          -- … and state.Hashes.Config
   hashesFiles         : Bool          -- … and, per IterRuntimeFiles entry, its path hash
-  hashesNames         : Bool          -- … and the entry's name (false today)
+  hashesNames         : Bool          -- … and the entry's name
+  linkXattr           : Bool          -- DEFECT when true: the path hasher reads / stores the `user.plz_hash` xattr on a
+                                      -- filegroup output that is a HARD LINK of a source file (shared inode). As coded
+                                      -- it does not: CopyHash marks such a path and Hash then neither reads nor stores.
   rerunForces         : Bool          -- needToRun: `if state.ForceRerun { return true }`
   reuseStates         : List BState   -- needToRun: states in which the stored result is consulted
   verifiesHash        : Bool          -- needToRun: `!verifyHash(results file, hash)` ⇒ run
@@ -53,7 +56,7 @@ deriving DecidableEq, Repr
 
 /-- The code as read today. -/
 def Facts.asCoded : Facts :=
-  { hashesRule := true, hashesConfig := true, hashesFiles := true, hashesNames := false, rerunForces := true,
+  { hashesRule := true, hashesConfig := true, hashesFiles := true, hashesNames := true, linkXattr := false, rerunForces := true,
     reuseStates := [.unchanged, .reused], verifiesHash := true, singleRunOnly := true, removesBefore := true,
     storeIfAllSucceeded := true, storeIfNoFailures := true, storeIfNoArgs := true, cachedRejectsFailed := true }
 
@@ -78,6 +81,8 @@ structure TRepo (K A F N C A' G : Type) where
                            -- whereas the same file seen as somebody's data is `repo.outName`: package/output)
   cfg     : G
   cacheOn : Bool           -- `[cache] dir` is configured: build outputs and results files go through the artifact cache
+  linkOf  : N → Option Nat -- the runtime file of that name is a hard link (filegroup output) of a source file whose inode
+                           -- is the given one: an edit IN PLACE keeps the inode, replacing the file gives a new one
 
 /-- Flags of one `plz test` invocation. -/
 structure Flags where
@@ -108,6 +113,7 @@ structure TState (K C S N H R : Type) where
   res    : Results K R
   bcache : Build.Cache K C S N H
   rcache : RCache K R
+  xh     : Nat → Option H      -- `user.plz_hash` xattrs on source inodes that are hard-linked into plz-out
 
 section
 variable {K A F N C S H A' S' G : Type}
@@ -145,6 +151,20 @@ def runtimeSer (cfg : G) (a : A') (files : List (N × C)) : RStamp S' G N H :=
     cfg := if fx.hashesConfig then some cfg else none,
     files := files.map (fun p => (if fx.hashesNames then some p.1 else none,
                                   if fx.hashesFiles then some (pathSer p.2) else none)) }
+
+/-- The path pre-image the hasher SEES for a runtime file: its current contents — unless the defect `linkXattr`
+    is in: then, for a hard link of a source inode that carries a stored hash, the stored (possibly stale) one. -/
+def seenHash (linkOf : N → Option Nat) (xh : Nat → Option H) (p : N × C) : H :=
+  match linkOf p.1 with
+  | some i => if fx.linkXattr then (match xh i with | some h => h | none => pathSer p.2) else pathSer p.2
+  | none => pathSer p.2
+
+/-- `RuntimeHash` over what the hasher sees. -/
+def runtimeSerX (linkOf : N → Option Nat) (xh : Nat → Option H) (cfg : G) (a : A') (files : List (N × C)) : RStamp S' G N H :=
+  { rule := if fx.hashesRule then some (ruleSerRT a) else none,
+    cfg := if fx.hashesConfig then some cfg else none,
+    files := files.map (fun p => (if fx.hashesNames then some p.1 else none,
+                                  if fx.hashesFiles then some (seenHash fx pathSer linkOf xh p) else none)) }
 
 variable {R : Type} [DecidableEq R]
 
@@ -207,29 +227,49 @@ def bstateOf (out out' : Out K C S N H) (ran : List K) (k : K) : BState :=
 
 /-- The test phase over the target list (order of the list; reports are keyed). `none` report: the runtime
     files could not be collected (something is not built) and nothing is run. -/
-def testList (r : TRepo K A F N C A' G) (tsel : K → Bool) (fl : Flags) (out0 out' : Out K C S N H) (ran : List K) :
+def testList (r : TRepo K A F N C A' G) (tsel : K → Bool) (fl : Flags) (out0 out' : Out K C S N H) (ran : List K)
+    (xh : Nat → Option H) :
     List (Target K A F) → Results K (RStamp S' G N H) → RCache K (RStamp S' G N H) →
     Results K (RStamp S' G N H) × RCache K (RStamp S' G N H) × List (K × Option Report)
   | [], res, rc => (res, rc, [])
   | t :: ts, res, rc =>
     if tsel t.key then
       match r.tests t.key with
-      | none => testList r tsel fl out0 out' ran ts res rc
+      | none => testList r tsel fl out0 out' ran xh ts res rc
       | some td =>
         match runtimeFiles r.repo r.ownName out' t.key td with
         | none =>
-          let x := testList r tsel fl out0 out' ran ts res rc
+          let x := testList r tsel fl out0 out' ran xh ts res rc
           (x.1, x.2.1, (t.key, none) :: x.2.2)
         | some files =>
-          let h := runtimeSer fx ruleSerRT pathSer r.cfg td.rattrs files
+          let h := if fx.linkXattr then runtimeSerX fx ruleSerRT pathSer r.linkOf xh r.cfg td.rattrs files
+                   else runtimeSer fx ruleSerRT pathSer r.cfg td.rattrs files
           let hit := if r.cacheOn then rc (t.key, h) else none
           let y := testOne fx outcome fl (bstateOf pathSer out0 out' ran t.key) td.dummy td.rattrs files h (res t.key) hit
           let rc' : RCache K (RStamp S' G N H) := match y.2.1 with
             | some s => if r.cacheOn then (fun q => if q = (t.key, h) then some s else rc q) else rc
             | none => rc
-          let x := testList r tsel fl out0 out' ran ts (fun j => if j = t.key then y.1 else res j) rc'
+          let x := testList r tsel fl out0 out' ran xh ts (fun j => if j = t.key then y.1 else res j) rc'
           (x.1, x.2.1, (t.key, some y.2.2) :: x.2.2)
-    else testList r tsel fl out0 out' ran ts res rc
+    else testList r tsel fl out0 out' ran xh ts res rc
+
+/-- The runtime files of all requested tests (what `RuntimeHash` walks over in this invocation). -/
+def seenFiles (r : TRepo K A F N C A' G) (tsel : K → Bool) (out' : Out K C S N H) : List (N × C) :=
+  r.repo.targets.flatMap fun t =>
+    if tsel t.key then
+      match r.tests t.key with
+      | some td => (runtimeFiles r.repo r.ownName out' t.key td).getD []
+      | none => []
+    else []
+
+/-- With the defect in, hashing a hard-linked path that carries no stored hash yet plants one on its inode
+    (`Hash(…, store = true)`); an existing one is kept, stale or not. -/
+def plantX (r : TRepo K A F N C A' G) (tsel : K → Bool) (out' : Out K C S N H) (xh : Nat → Option H) : Nat → Option H :=
+  if fx.linkXattr then
+    fun i => match xh i with
+      | some h => some h
+      | none => (seenFiles r tsel out').findSome? fun p => if r.linkOf p.1 = some i then some (pathSer p.2) else none
+  else xh
 
 variable (bfx : Build.Facts) (mv rs : C → C → C) (exec : A → List (N × C) → C) (ruleSer : A → S)
 
@@ -244,10 +284,10 @@ def buildPhase (r : TRepo K A F N C A' G) (sel : K → Bool) (out : Out K C S N 
 def testAll (r : TRepo K A F N C A' G) (sel tsel : K → Bool) (fl : Flags) (st : TState K C S N H (RStamp S' G N H)) :
     TState K C S N H (RStamp S' G N H) × List K × List (K × Option Report) :=
   let b := buildPhase pathSer bfx mv rs exec ruleSer r sel st.out st.bcache
-  let t := testList fx ruleSerRT pathSer outcome r tsel fl st.out b.1 b.2.2 r.repo.targets st.res st.rcache
-  (⟨b.1, t.1, b.2.1, t.2.1⟩, b.2.2, t.2.2)
+  let t := testList fx ruleSerRT pathSer outcome r tsel fl st.out b.1 b.2.2 st.xh r.repo.targets st.res st.rcache
+  (⟨b.1, t.1, b.2.1, t.2.1, plantX fx pathSer r tsel b.1 st.xh⟩, b.2.2, t.2.2)
 
-def TState.empty : TState K C S N H R := ⟨fun _ => none, fun _ => none, fun _ => none, fun _ => none⟩
+def TState.empty : TState K C S N H R := ⟨fun _ => none, fun _ => none, fun _ => none, fun _ => none, fun _ => none⟩
 
 /-- A fresh run: the same tree in a fresh directory (empty plz-out, no stored results, empty cache), default flags. -/
 def freshRun (r : TRepo K A F N C A' G) (sel tsel : K → Bool) : List (K × Option Report) :=
@@ -268,12 +308,12 @@ def runHistT : List (TOp K A F N C S H A' G (RStamp S' G N H)) → TState K C S 
   | [], st => st
   | .test r sel tsel fl :: ops, st => runHistT ops (testAll fx ruleSerRT pathSer outcome bfx mv rs exec ruleSer r sel tsel fl st).1
   | .build r sel :: ops, st =>
-    runHistT ops ⟨(buildPhase pathSer bfx mv rs exec ruleSer r sel st.out st.bcache).1, st.res,
-                  (buildPhase pathSer bfx mv rs exec ruleSer r sel st.out st.bcache).2.1, st.rcache⟩
-  | .rmOut keep :: ops, st => runHistT ops ⟨fun k => if keep k then st.out k else none, st.res, st.bcache, st.rcache⟩
-  | .rmRes keep :: ops, st => runHistT ops ⟨st.out, fun k => if keep k then st.res k else none, st.bcache, st.rcache⟩
-  | .evictB keep :: ops, st => runHistT ops ⟨st.out, st.res, fun q => if keep q then st.bcache q else none, st.rcache⟩
-  | .evictR keep :: ops, st => runHistT ops ⟨st.out, st.res, st.bcache, fun q => if keep q then st.rcache q else none⟩
+    runHistT ops { st with out := (buildPhase pathSer bfx mv rs exec ruleSer r sel st.out st.bcache).1,
+                           bcache := (buildPhase pathSer bfx mv rs exec ruleSer r sel st.out st.bcache).2.1 }
+  | .rmOut keep :: ops, st => runHistT ops { st with out := fun k => if keep k then st.out k else none }
+  | .rmRes keep :: ops, st => runHistT ops { st with res := fun k => if keep k then st.res k else none }
+  | .evictB keep :: ops, st => runHistT ops { st with bcache := fun q => if keep q then st.bcache q else none }
+  | .evictR keep :: ops, st => runHistT ops { st with rcache := fun q => if keep q then st.rcache q else none }
 
 end
 end PlzVerif.TestCache
